@@ -186,6 +186,10 @@ func c19Commands(w c19Journal) []c19Cmd {
 		{"returns", []string{"portfolio", "returns", "-v", w.v, "--to", w.to, "--months", "main.knut"}, true, false},
 		{"infer", []string{"infer", "-t", "main.knut", "target.knut"}, false, true},
 		{"register", []string{"register", "--to", w.to, "main.knut"}, false, false},
+		// the same filter predicate is evaluated by several pipeline stages at once
+		{"returns-filtered", []string{"portfolio", "returns", "-v", w.v, "--to", w.to, "--weeks", "--account", "^Assets|^Liabilities", "--commodity", ".", "main.knut"}, true, false},
+		{"weights-filtered", []string{"portfolio", "weights", "-v", w.v, "--to", w.to, "--quarters", "--account", "Assets", "--commodity", "[A-Z]", "-a", "--csv", "main.knut"}, true, false},
+		{"register-filtered", []string{"register", "--to", w.to, "-v", w.v, "--source", "Assets|Expenses", "--dest", ".", "--commodity", ".", "-m", "2", "-c", "-d", "--months", "main.knut"}, true, false},
 	}
 }
 
